@@ -1133,6 +1133,11 @@ where
       self.read_half = None;
     }
     self.core_pipe_manager.detach_and_clear_pipes();
+    // Commands still queued in the mailbox are never going to be processed. Drop them now rather
+    // than when the last mailbox sender goes away: an unprocessed ScaInitializePipes carries the
+    // connection's ends of the core pipes, and the socket's ingress queue only reports "closed"
+    // (releasing a blocked recv()) once every such end is gone.
+    while self.command_mailbox_receiver.try_recv().is_ok() {}
     self.current_phase = ConnectionPhaseX::Terminating;
     tracing::debug!(
       sca_handle = self.handle,
